@@ -6,6 +6,7 @@
 package verifrt
 
 import (
+	"time"
 	cryptorand "crypto/rand"
 	"encoding/binary"
 	"encoding/hex"
@@ -211,6 +212,58 @@ func Assert(c bool, label string) {
 	}
 }
 
+var envFn, blockedFn func()
+
+func drawsLeft() bool {
+	for _, q := range queues {
+		if len(q) > 0 {
+			return true
+		}
+	}
+	return false
+}
+
+// Spawn runs f, the code under test that may block on channels. Under the solver f is
+// simply called (the environment callback acts at its visible operations). Natively f
+// runs in a goroutine while this goroutine plays the environment from the recorded draws;
+// if f has not returned after the environment ran out of events the OnBlocked callback
+// runs and the replay ends as BLOCKED.
+func Spawn(f func()) {
+	load()
+	done := make(chan any, 1)
+	go func() {
+		defer func() { done <- recover() }()
+		f()
+	}()
+	finish := func(r any) {
+		if r != nil {
+			panic(r)
+		}
+	}
+	for i := 0; i < 256 && drawsLeft(); i++ {
+		select {
+		case r := <-done:
+			finish(r)
+			return
+		default:
+		}
+		if envFn != nil {
+			envFn()
+		}
+		time.Sleep(2 * time.Millisecond)
+	}
+	select {
+	case r := <-done:
+		finish(r)
+		return
+	case <-time.After(400 * time.Millisecond):
+	}
+	if blockedFn != nil {
+		blockedFn()
+	}
+	panic(stop{"BLOCKED (code under test did not return)"})
+}
+
 // Block marks a point where the code under test would block for ever.
 func Block(what string) { panic(stop{"BLOCKED " + what}) }
 
@@ -219,8 +272,8 @@ func Note(s string)        {}
 func Witness(i int)        {}
 func Ideal()               {}
 func IdealAEAD()           {}
-func OnBlocked(f func())   {}
-func Env(f func())         {}
+func OnBlocked(f func())   { blockedFn = f }
+func Env(f func())         { envFn = f }
 func Symbolic() bool       { return false }
 func Exit()                { panic(stop{"EXIT"}) }
 func And(a, b bool) bool   { return a && b }
